@@ -263,7 +263,7 @@ def run(rec, hub, tier, seed, shard, nshards, budget):
             rec.exhaustive_spaces[space] = False
             break
         la, lb = pairs[pi]
-        U = gen.universe(fd, dict(zip(letters, patterns[pat])), rng=case_nprng(seed, "c01.universe", 0, f"{pi}.{pat}"))
+        U = gen.universe(fd, dict(zip(letters, patterns[pat])), rng=case_nprng(seed, "c01.universe", 0, f"{pi}.{pat}"), twin_names=True)
         rng = case_nprng(seed, "c01.pair", 0, f"{pi}.{pat}")
         rec.set_case(driver="c01.pair", seed=seed, tier=tier, shard=shard, nshards=nshards, idx=pi, pattern=pat, a=la, b=lb)
         do_pair(rec, hub, U, la, lb, regimes, rng)
@@ -294,7 +294,7 @@ def replay(rec, hub, case):
         return
     letters, patterns = ("abc", gen.LENGTH_PATTERNS[3]) if tier == "quick" else ("abcd", gen.LENGTH_PATTERNS[4])
     pat = case["pattern"]
-    U = gen.universe(fd, dict(zip(letters, patterns[pat])), rng=case_nprng(case["seed"], "c01.universe", 0, f"{case['idx']}.{pat}") if case["driver"] == "c01.pair" else None)
+    U = gen.universe(fd, dict(zip(letters, patterns[pat])), rng=case_nprng(case["seed"], "c01.universe", 0, f"{case['idx']}.{pat}") if case["driver"] == "c01.pair" else None, twin_names=True)
     rec.set_case(**case)
     if case["driver"] == "c01.pair5":
         U5 = gen.universe(fd, dict(zip("abcde", gen.LENGTH_PATTERNS[5][case["shard"] % 3])))
